@@ -84,19 +84,30 @@ class IsCompletedObserver(FeatureObserver):
             for feature_type in self.features.keys()
             if feature_type != FeatureType.OPERATIONS
         ]
-        remaining_ops_observer = self.dispatcher.create_or_get_observer(
+        # Kept so that a remaining operations observer is subscribed, as
+        # before.
+        self.dispatcher.create_or_get_observer(
             RemainingOperationsObserver,
             condition=_has_same_features,
             feature_types=remaining_ops_feature_types,
         )
+        # The counts are recomputed from the dispatcher, which is reset before
+        # its subscribers; the remaining operations observer may still hold
+        # the previous episode's state when this method is called from
+        # ``reset``.
+        unscheduled_operations = self.dispatcher.unscheduled_operations()
         if FeatureType.JOBS in self.features:
-            self.remaining_ops_per_job = remaining_ops_observer.features[
-                FeatureType.JOBS
-            ].copy()
+            self.remaining_ops_per_job = np.zeros_like(
+                self.features[FeatureType.JOBS]
+            )
+            for operation in unscheduled_operations:
+                self.remaining_ops_per_job[operation.job_id, 0] += 1
         if FeatureType.MACHINES in self.features:
-            self.remaining_ops_per_machine = remaining_ops_observer.features[
-                FeatureType.MACHINES
-            ].copy()
+            self.remaining_ops_per_machine = np.zeros_like(
+                self.features[FeatureType.MACHINES]
+            )
+            for operation in unscheduled_operations:
+                self.remaining_ops_per_machine[operation.machines, 0] += 1
 
     def reset(self):
         self.initialize_features()
